@@ -75,6 +75,19 @@ Theorem C02_purity_measure_conserved : forall n (steps : list (list R * mat (T:=
 Proof. intros. apply exp_steps_purity. assumption. Qed.
 Print Assumptions C02_purity_measure_conserved.
 
+(* the assembled loop body with the linear-rk4 integrator (Model/Traj.step_rk4, tied to real runs by Run/RTraj.chkTr):
+   whatever the hop decision, rho after the pass is the rk4 step of rho before it, Hermitian with the same trace *)
+Theorem C02_full_step_rk4 :
+  forall n m dt maxdt start poisson zeta (e0 e1 : elec (T:=R)) eigs vecs (s s' : tstate (T:=R)) W hp att,
+  step_rk4 ROps n m dt maxdt start poisson zeta e0 e1 eigs vecs s = (s', W, hp, att) ->
+  unitary n (mget ROps (mofreal ROps n vecs)) ->
+  mherm n (mofreal ROps n (eH e0)) -> mherm n (mofreal ROps n (eH e1)) ->
+  (forall tau w, (tau = etau e0 \/ tau = etau e1) -> aherm n (mget ROps (tvmat ROps n tau w))) ->
+  mherm n (prho s) ->
+  mherm n (prho s') /\ mtrace ROps n (prho s') = mtrace ROps n (prho s).
+Proof. intros. eapply step_rk4_trace_herm; eassumption. Qed.
+Print Assumptions C02_full_step_rk4.
+
 (* PARTIAL: purity and positivity under 'linear-rk4' hold only to the accuracy of the RK4
    integrator (it is not unitary); not mechanised, measured by the harness.
    Hop attempts: Model/Hop.hop_to_it neither takes nor returns the density matrix (checked on the
